@@ -27,6 +27,14 @@ int vf_bl_write_data(int cfg, unsigned long size, const uint8_t* value);
 int vf_bl_read_data(int cfg, unsigned long read_size, uint8_t* out, unsigned long* out_size);
 int vf_bl_progress(int cfg, unsigned long read_size, uint8_t* out, unsigned long* out_size);
 
+/* raw copy of the controller state (shims/svc_bl.cpp) */
+struct vf_bl_state {
+    uint8_t  opcode; uint64_t start_address; uint64_t end_address; uint8_t error; uint32_t check_sum; uint8_t in_flash_mode;
+    uint32_t next_buffer; uint32_t used_buffer; uint16_t consecutive;
+    struct { uint32_t state; uint64_t addr; uint64_t ptr; uint32_t crc; uint16_t consecutive; uint8_t data[32]; } buffers[2];
+};
+void vf_bl_get_state(int cfg, struct vf_bl_state* s);
+
 /* ---- configurations (must match shims/svc_bl.cpp; written from the template arguments, not read from the code) */
 #define NCFG 4
 static const int      NREG[NCFG]       = { 2, 1, 1, 1 };
@@ -121,6 +129,21 @@ int vf_bl_env_start_flash(uint64_t addr, const uint8_t* values, uint64_t size)
     fl_known[idx] = 0;
     if (size == PAGE) {
         OBSERVE_BYTES(values, PAGE);
+#ifdef VF_CBMC
+        /* CBMC 6.11 mis-reads bytes through `values` when it points into the second element of the (packed) page buffer
+         * array (the same bytes read by member access are right; the g++/ASan build and the natively compiled generated C
+         * read them correctly through the pointer).  Under CBMC the page is therefore taken from a raw copy of the page
+         * buffer that is being flushed (always buffers_[next_buffer_]); natively from the pointer itself. */
+        struct vf_bl_state st;
+        vf_bl_get_state(cfg, &st);
+        static uint8_t page_copy[MAXPAGE];
+        int second = st.next_buffer == 1;
+        __CPROVER_assert(st.next_buffer < 2 && (second ? st.buffers[1].addr : st.buffers[0].addr) == addr
+                         && (second ? st.buffers[1].state : st.buffers[0].state) == 2,
+                         "VFCHECK start_flash: the page handed over is the page buffer being flushed");
+        for (unsigned i = 0; i < MAXPAGE; ++i) page_copy[i] = second ? st.buffers[1].data[i] : st.buffers[0].data[i];
+        values = page_copy;
+#endif
         if (m_session && m_valid) {
             for (unsigned i = 0; i < PAGE; ++i) {
                 uint64_t a = addr + i;
